@@ -9,22 +9,30 @@ def plan(tier):
     return {
         "mc": mc,
         "families": [{"fam": "rs", "trace": "SuccinctTrace"},
-                     {"fam": "wm", "trace": "SuccinctTrace"}],
+                     {"fam": "wm", "trace": "SuccinctTrace"},
+                     {"fam": "rsbig", "trace": "SuccinctTrace"}],
         "required_obligations": [
             "n_multiple_of_superblock", "n_just_above_superblock", "padded_last_byte",
             "three_or_more_superblocks", "all_zero", "all_one", "equal_rank_run_ones", "equal_rank_run_zeros",
             "k8", "ctor_fill_true", "k_larger_than_vector",
+            "more_than_65535_ones_in_a_superblock", "more_than_65535_zeros_in_a_superblock",
+            "more_than_128_superblocks_sparse", "more_than_128_superblocks", "big_single_superblock",
             "wm_exhaustive_small", "wm_len_at_superblock_boundary", "wm_padded_levels", "wm_single_symbol_text"],
         "rule": "rs: one run = one RankSelect object (bits,k), all of rank_1/rank_0(i), i in 0..n+1, and "
                 "select_1/select_0(j), j in 0..n+1, plus get; every n in 1..130 (k=1) and n = 32k*{1,2,3} +- 9 for "
                 "k in {1,2,3,8} with fills all-0, all-1, single bit at a block/superblock boundary, densities "
                 "1/2, 1/16, 15/16, constant superblocks/bytes; three BitVec constructors. wm: one run = one "
                 "WaveletMatrix, rank(c,p) for all six symbols and all p; all texts over ACGTN$ up to length 4 (5 "
-                "thorough) and random/skewed texts with lengths around the 32-bit superblocks up to 300",
+                "thorough) and random/skewed texts with lengths around the 32-bit superblocks up to 300. rsbig: structured "
+                "vectors given by parameters (n in {20000, 150000, 10^6}, period P, residue set R, flipped positions "
+                "X), never logged verbatim, k in {1,3,2048,4096,70000}; rank/select asked at the first/last bit, at "
+                "superblock seams, 65535..65537 and ~70000 bits into a superblock, for the 65535/65536/65537-th "
+                "bit, around the totals and around every select answer; judged by the closed form of Succinct.tla "
+                "(StructLemma: closed form = naive count for all P<=3/4, n<=7/9, <=2 flips)",
         "bounds": {"mc": "rank/select machine: block 2 bits, superblock 2k bits, all vectors n<=9, k<=2 (thorough "
                          "n<=11, k<=3 and block 3 bits n<=10); wavelet machine: all texts over 6 symbols n<=4 (5), "
                          "all (c,p)",
-                   "impl": "n<=1500, k<=8; texts<=300"},
+                   "impl": "explicit vectors n<=1500, k<=8; structured vectors n<=10^6, k<=70000; texts<=300"},
         "assumptions": ["ndJsonDeserialize/TLC evaluate the TLA+ definitions faithfully",
                         "bit vectors have n>=1 (stated quantifier); wavelet texts are non-empty upper-case ACGTN$",
                         "the harness batches all queries of one kind into one event (a panic in any of them "
